@@ -404,6 +404,27 @@ fn prefix_runs(scn: &mut Scenario, cb: &[&str], rng: &mut Rng, all_prefixes: boo
     // a range starting inside the history
     if t >= 1 && rng.coin() {
         let s = rng.range(1, t);
+        // the result of the adjacent earlier range 0..s-1 is already in the folder (a nightly
+        // `--start <last end + 1>` routine): a dump lists the outputs of *its* range only
+        if rng.coin() && !scn.layouts.is_empty() {
+            let m = Model::new(scn);
+            let u = m.unspent_rows(0, s - 1).0;
+            let b = m.balance_rows(0, s - 1).0;
+            let mut ub = b"txid;indexOut;height;value;address\n".to_vec();
+            for r in &u {
+                ub.extend_from_slice(r.as_bytes());
+                ub.push(b'\n');
+            }
+            let mut bb = b"address;balance\n".to_vec();
+            for r in &b {
+                bb.extend_from_slice(r.as_bytes());
+                bb.push(b'\n');
+            }
+            scn.dump_pre.retain(|p| !p.name.starts_with("unspent-0-") && !p.name.starts_with("balances-0-"));
+            scn.dump_pre.push(PreFile { name: format!("unspent-0-{}.csv", s - 1), bytes: Bytes(ub) });
+            scn.dump_pre.push(PreFile { name: format!("balances-0-{}.csv", s - 1), bytes: Bytes(bb) });
+            scn.params = serde_json::json!({ "adjacent_earlier_result": s - 1 });
+        }
         for c in cb {
             let mut r = RunSpec::new(c);
             r.start = Some(s);
@@ -483,7 +504,7 @@ impl Prop for C07 {
         small + if tier == Tier::Quick { 700 } else { 8000 }
     }
     fn required_probes(&self, _tier: Tier) -> Vec<&'static str> {
-        vec!["spend_in_creating_block", "duplicate_txid", "spend_unknown_outpoint", "tx_with_over_256_outputs", "spent_index_past_255", "zero_value_output", "txids_sharing_8_bytes", "known_output_spent_by_tx_without_outputs", "known_output_spent_after_null_outpoint_in_same_tx", "output_above_21m_coins", "wide_tx_with_adjacent_equal_scripts"]
+        vec!["spend_in_creating_block", "duplicate_txid", "spend_unknown_outpoint", "tx_with_over_256_outputs", "spent_index_past_255", "zero_value_output", "txids_sharing_8_bytes", "known_output_spent_by_tx_without_outputs", "known_output_spent_after_null_outpoint_in_same_tx", "output_above_21m_coins", "wide_tx_with_adjacent_equal_scripts", "result_of_adjacent_earlier_range_in_folder"]
     }
     fn explore(&self, item: u64, rng: &mut Rng, tier: Tier, h: &mut Harness) -> Result<(), String> {
         let maxk = if tier == Tier::Quick { 3 } else { 4 };
@@ -518,6 +539,9 @@ impl Prop for C07 {
     }
     fn judge(&self, scn: &Scenario, m: &Model, outs: &[RunOutcome], st: &mut Stats) -> Vec<Violation> {
         probes(scn, m, st);
+        if scn.params.get("adjacent_earlier_result").is_some() && scn.runs.iter().any(|r| r.start.is_some()) {
+            st.probe("result_of_adjacent_earlier_range_in_folder");
+        }
         let mut v = Vec::new();
         for (r, o) in scn.runs.iter().zip(outs.iter()) {
             if !o.exit.ok() {
@@ -582,7 +606,7 @@ impl Prop for C08 {
         (6 + 72 + 864) + if tier == Tier::Quick { 500 } else { 8000 }
     }
     fn required_probes(&self, _tier: Tier) -> Vec<&'static str> {
-        vec!["address_with_multiple_utxos", "address_emptied", "p2pk_and_p2pkh_same_address"]
+        vec!["address_with_multiple_utxos", "address_emptied", "p2pk_and_p2pkh_same_address", "two_million_unspent_outputs_alive"]
     }
     fn explore(&self, item: u64, rng: &mut Rng, _tier: Tier, h: &mut Harness) -> Result<(), String> {
         if let Some((ops, bounds)) = decode_small(item, 3) {
@@ -593,6 +617,49 @@ impl Prop for C08 {
             return Ok(());
         }
         let coin = *rng.pick(&COINS);
+        if item == (6 + 72 + 864) + 7 {
+            // about two million unspent outputs alive at once (hash tables sized for "a million" have grown by
+            // then), among them zero-value outputs that are the only output of their address
+            let mut scn = new_scenario("C08", "huge-utxo", coin);
+            let pool: Vec<Vec<u8>> = (0..50).map(|_| p2pkh(&rng.bytes(20))).collect();
+            for b in 0..30u32 {
+                let mut outputs: Vec<OutDesc> = Vec::with_capacity(65_000);
+                for k in 0..65_000u32 {
+                    if b == 0 && k < 200 {
+                        outputs.push(OutDesc { value: 0, script: Bytes(p2pkh(&rng.bytes(20))) });
+                    } else {
+                        outputs.push(OutDesc { value: 1 + (rng.next() % 1_000_000), script: Bytes(pool[(rng.next() % 50) as usize].clone()) });
+                    }
+                }
+                scn.chain.push(BlockDesc {
+                    version: 1,
+                    prev: None,
+                    merkle: None,
+                    time: 1_500_000_000 + b * 600,
+                    bits: 0x1d00ffff,
+                    nonce: b,
+                    auxpow: None,
+                    txs: vec![TxDesc {
+                        version: 1,
+                        segwit: false,
+                        inputs: vec![coinbase_input(b as u64, rng)],
+                        outputs,
+                        locktime: 0,
+                        cs_width: 0,
+                    }],
+                });
+            }
+            scn.layouts = vec![single_file_layout(30)];
+            scn.index = index_opts(rng);
+            for cb in ["unspentcsvdump", "balances"] {
+                let mut r = RunSpec::new(cb);
+                r.threads = 4;
+                scn.runs.push(r);
+            }
+            h.stats.probe("two_million_unspent_outputs_alive");
+            h.check(&mut scn)?;
+            return Ok(());
+        }
         if rng.chance(1, 12) {
             let mut scn = long_gap_history("C08", coin, rng);
             for cb in ["unspentcsvdump", "balances"] {
